@@ -3,6 +3,20 @@ use serde_this_or_that::as_bool;
 
 use super::link_idx::*;
 
+/// `as_bool` accepts `true`/`"True"`/`1`… (needed for the csv files) but relies on
+/// `deserialize_any`, which only self-describing formats provide.  Binary formats such as bincode
+/// write a plain `bool`, so read a plain `bool` there.
+fn as_bool_any_format<'de, D>(deserializer: D) -> Result<bool, D::Error>
+where
+    D: serde::Deserializer<'de>,
+{
+    if deserializer.is_human_readable() {
+        as_bool(deserializer)
+    } else {
+        bool::deserialize(deserializer)
+    }
+}
+
 #[derive(Debug, Default, Clone, Serialize, Deserialize, PartialEq, SerdeAPI)]
 #[altrios_api]
 pub struct Location {
@@ -14,7 +28,7 @@ pub struct Location {
     #[serde(rename = "Link Index")]
     pub link_idx: LinkIdx,
     #[serde(rename = "Is Front End")]
-    #[serde(deserialize_with = "as_bool")]
+    #[serde(deserialize_with = "as_bool_any_format")]
     pub is_front_end: bool,
     #[serde(rename = "Grid Emissions Region")]
     pub grid_emissions_region: String,
